@@ -644,13 +644,10 @@ class CFGBuilder:
         return out
 
 
-_CFG_CACHE: Dict[Tuple[int, str], CFG] = {}
-
-
 def build_cfg(prog: Program, fn: FunctionInfo) -> CFG:
-    key = (id(prog), fn.qname)
-    g = _CFG_CACHE.get(key)
+    cache: Dict[str, CFG] = prog.__dict__.setdefault("_cfg_cache", {})
+    g = cache.get(fn.qname)
     if g is None:
         g = CFGBuilder(prog, fn).build()
-        _CFG_CACHE[key] = g
+        cache[fn.qname] = g
     return g
